@@ -9,7 +9,7 @@ from mc import core, world
 PID = 'C09'
 LEVEL = 'exploration'
 RULE = ('layers: registered default, main file, d1/{10.yaml, 9.yaml, B.yaml, '
-        'a.json, .hidden.yaml, sub/x.yaml}, d2/a.yaml, plus a configured but '
+        'a.json, .hidden.yaml (+3 more dot-files with the same content), sub/x.yaml}, d2/a.yaml, plus a configured but '
         'missing d3; layer i defines a name as role:L<i> so single-role probes '
         'read off the winner.  One name: every subset of the 9 defining '
         'layers x main file absent/empty when unused x directories relative '
@@ -91,6 +91,11 @@ def layout(w, defs, fmt_json, main_mode):
     for rel in sorted(files, reverse=True):
         fmt = 'json' if rel in fmt_json else 'yaml'
         w.write(rel, world.dumps_policy(files[rel], fmt))
+        if rel == 'd1/.hidden.yaml':
+            # editors leave more than one hidden file behind
+            for extra in ('d1/.a-swap.yaml', 'd1/.b-backup.json',
+                          'd1/.c.yaml~'):
+                w.write(extra, world.dumps_policy(files[rel], fmt))
     return files
 
 
